@@ -345,4 +345,11 @@ def providerContent (grep : List Str → List Str → List Str) (host : Bool) (f
   else
     if fs.isEmpty then file else filterContent file fs
 
+/-- one load of a TextFileProvider of datasource `ds` under an archive context (constructor look-up,
+then `load()`): the state it leaves and the content it returns.  `filter_content` works on a COPY
+of the allow-list, so the only trace a load leaves is the look-up's cache entry. -/
+def loadArchive (w : World) (st : State) (ds : Comp) (file : List Str) : State × List Str :=
+  let r := getFilters w st ds
+  (r.1, providerContent grepF false true r.2.1 file)
+
 end IV.Filters
